@@ -101,6 +101,17 @@ Proof.
     eapply class_none_of; [exact Hf|vm_compute; reflexivity].
 Qed.
 
+Corollary parse_delims s u : parse s = POk u ->
+  opt_ok (fun s => s <> [] /\ none_of [58; 47; 63; 35; 64; 91; 93; 37; 0] s) (scheme u)
+  /\ opt_ok (none_of [64; 47; 63; 35; 91; 93; 0]) (userInfo u)
+  /\ opt_ok (fun h => if is_lit u then none_of [91; 93; 47; 63; 35; 64; 37; 0] h
+                      else none_of [58; 47; 63; 35; 64; 91; 93; 0] h) (hostText u)
+  /\ opt_ok (none_of [58; 47; 63; 35; 64; 91; 93; 37; 0]) (portText u)
+  /\ Forall (none_of [47; 63; 35; 91; 93; 0]) (pathSegs u)
+  /\ opt_ok (none_of [35; 91; 93; 0]) (query u)
+  /\ opt_ok (none_of [35; 91; 93; 0]) (fragment u).
+Proof. intros H. exact (parsed_delims u (proj1 (parse_wf s u H))). Qed.
+
 (* ---------------------------------------------------------------- hypotheses of other properties *)
 Lemma forallb_excl cls k t : cls k = false -> forallb cls t = true -> forallb (fun c => negb (c =? k)) t = true.
 Proof.
